@@ -39,3 +39,11 @@ Lemma T_Hub_src_queue_close : src_queue_close =
   "{ q.closeOnce.Do(func() { close(q.closed) for i := 0; i < cap(q.freelist); i++ { select { case <-q.freelist: case <-q.queue: } } if len(q.queue) != 0 { panic(""there are still items in the queue after emptying freelist"") } }) return nil }"%string.
 Proof. reflexivity. Qed.
 
+(* the remaining Queue methods (Model/Queue.v, Model/QueueBuf.v) *)
+Lemma T_Hub_src_queue_delivervec : src_queue_delivervec =
+  "{ select { case <-q.closed: return false case m2 := <-q.freelist: m2.Src = src m2.Dst = dst m2.Payload = p2p.VecBytes(m2.Payload[:0], v) select { case q.queue <- m2: return true default: panic(""queue is full, but freelist gave us a message"") } default: return false } }"%string.
+Proof. reflexivity. Qed.
+
+Lemma T_Hub_src_queue_purge : src_queue_purge =
+  "{ for len(q.queue) > 0 { m := <-q.queue zeroMessage[A](&m) q.freelist <- m count++ } return count }"%string.
+Proof. reflexivity. Qed.
